@@ -11,3 +11,7 @@ import GoFlags.Props.C03
 #print axioms GoFlags.C03.passthrough_verbatim
 #print axioms GoFlags.C03.dispatch_passes_retargs
 #print axioms GoFlags.C03.remaining_are_exactly_the_words
+#print axioms GoFlags.C03.addArgs_append
+#print axioms GoFlags.C03.everything_behind_the_terminator_is_passed_through
+#print axioms GoFlags.C03.remaining_are_the_words_and_everything_behind_the_terminator
+#print axioms GoFlags.C03.first_plain_word_passes_everything_behind_it
